@@ -82,18 +82,27 @@ def cases(tier, rng, schema, feats):
     # one representative of every lead byte C2..F4 (and the first / last code point of special ranges: surrogate
     # neighbours, private use, specials U+FFxx, language tags U+E00xx, last code point), at every alignment to the
     # 64-byte cut, followed by a narrower character, with and without overflow
-    reps = []
-    for lead in range(0xC2, 0xF5):
-        if lead < 0xE0:
-            reps.append(bytes([lead, 0x80 + (lead % 0x40)]).decode())
-        elif lead < 0xF0:
-            second = 0xA0 if lead == 0xE0 else (0x9F if lead == 0xED else 0x80 + (lead % 0x20))
-            reps.append(bytes([lead, second, 0xBF]).decode())
-        else:
-            second = 0x90 if lead == 0xF0 else (0x8F if lead == 0xF4 else 0xA0)
-            reps.append(bytes([lead, second, 0x80, 0xBF]).decode())
-    reps += ["\u007f", "\u0080", "\u07ff", "\u0800", "\ud7ff", "\ue000", "\uf000", "\uf8ff", "\ufeff", "\uff01", "\ufffd", "\uffff",
-             "\U00010000", "\U000e0001", "\U000e0020", "\U000e0065", "\U000e007e", "\U000e007f", "\U000f0000", "\U0010ffff"]
+    reps = gen.utf8_reps()
+    # sequences: two characters that text processing treats as a unit (emoji + joiner, base + combining mark / variation selector,
+    # tag sequence, flag pair, emoji + skin tone) with the cut before, between and after them
+    units = ["\u200d", "\ufe0f", "\u0301", "\U000e0001", "\U000e0065", "\U000e007f", "\U0001f1e6", "\U0001f468", "\U0001f3fb", " ", "\ufeff", "\u20e3", "a"]
+    kk = 0
+    for c1 in units:
+        for c2 in units:
+            pair = c1 + c2
+            for end in (63, 64, 64 + len(c2.encode()), 65 + len(c2.encode())):   # byte offset at which c1 ends
+                pre = end - len(c1.encode())
+                if pre < 0:
+                    continue
+                for tail in ("", "z"):
+                    t = cbor.T(("x" * pre + pair + tail).encode())
+                    kk += 1
+                    if kk % 3 == 0:
+                        add("unit", "decty", U, cbor.enc(user(name=t)).hex())
+                    elif kk % 3 == 1:
+                        add("unit", "decty", R, cbor.enc(rp(name=t)).hex())
+                    else:
+                        add("unit", "dec2", mc(user(name=t, display=t)).hex())
     for k, c in enumerate(reps):
         w = len(c.encode())
         for end in range(62, 69):            # byte offset at which the character ends
